@@ -1129,6 +1129,15 @@ fn authtypes(repo: &str, out: &str) -> Result<String, String> {
         return Err("new_reauth: the Reauth intent is not built from `read_write, session_id, session_expiry`".into());
     }
 
+    // ---- every place that can hand out a read-write scope -------------------------------------
+    let sites = rw_scope_sites(repo)?;
+    b += "/-- Every non-test function under `server/lib/src/idm/` and in `server/identity.rs` in which the\nvalue `AccessScope::ReadWrite` is produced (not matched on, not compared) or `project_with_scope`\nis called: (file, function, occurrences). -/\n";
+    b += "def rwScopeSites : List (String × String × Nat) := [\n";
+    for (i, (f, func, n)) in sites.iter().enumerate() {
+        b += &format!("  (\"{f}\", \"{func}\", {n}){}\n", if i + 1 == sites.len() { "" } else { "," });
+    }
+    b += "]\n";
+
     b += "end Kanidm.Gen.AuthTypes\n";
     // own writer: the generated module imports the enumerations, and `import` must come first
     let path = format!("{out}/AuthTypes.lean");
@@ -1194,4 +1203,134 @@ fn expect_field(s: &syn::ExprStruct, field: &str, value: &str, ctx: &str) -> Res
         }
     }
     Err(format!("{ctx}: no field `{field}` in the token literal"))
+}
+
+/// All `.rs` files below a directory, sorted.
+fn rs_files(dir: &std::path::Path, out: &mut Vec<std::path::PathBuf>) -> Result<(), String> {
+    let mut ents: Vec<_> = std::fs::read_dir(dir)
+        .map_err(|e| format!("{}: {e}", dir.display()))?
+        .filter_map(|e| e.ok().map(|e| e.path()))
+        .collect();
+    ents.sort();
+    for p in ents {
+        if p.is_dir() {
+            rs_files(&p, out)?;
+        } else if p.extension().map(|x| x == "rs").unwrap_or(false) {
+            out.push(p);
+        }
+    }
+    Ok(())
+}
+
+fn is_cfg_test(attrs: &[syn::Attribute]) -> bool {
+    attrs.iter().any(|a| a.path().is_ident("cfg") && nospace(&a.meta).contains("test"))
+}
+
+/// Functions that *produce* `AccessScope::ReadWrite` (expression position, not an operand of
+/// `==`/`!=`) or call `project_with_scope`, outside `#[cfg(test)]` items.
+fn rw_scope_sites(repo: &str) -> Result<Vec<(String, String, usize)>, String> {
+    struct V {
+        fn_stack: Vec<String>,
+        hits: Vec<String>,
+    }
+    impl V {
+        fn hit(&mut self) {
+            self.hits.push(self.fn_stack.last().cloned().unwrap_or_else(|| "<item>".into()));
+        }
+    }
+    fn is_rw(e: &syn::Expr) -> bool {
+        match e {
+            syn::Expr::Path(p) => {
+                let segs: Vec<String> = p.path.segments.iter().map(|s| s.ident.to_string()).collect();
+                segs.len() >= 2 && segs[segs.len() - 2] == "AccessScope" && segs[segs.len() - 1] == "ReadWrite"
+            }
+            syn::Expr::Paren(p) => is_rw(&p.expr),
+            syn::Expr::Reference(r) => is_rw(&r.expr),
+            _ => false,
+        }
+    }
+    impl<'ast> Visit<'ast> for V {
+        fn visit_item_mod(&mut self, m: &'ast syn::ItemMod) {
+            if is_cfg_test(&m.attrs) {
+                return;
+            }
+            syn::visit::visit_item_mod(self, m);
+        }
+        fn visit_item_impl(&mut self, i: &'ast syn::ItemImpl) {
+            if is_cfg_test(&i.attrs) {
+                return;
+            }
+            syn::visit::visit_item_impl(self, i);
+        }
+        fn visit_item_fn(&mut self, f: &'ast syn::ItemFn) {
+            if is_cfg_test(&f.attrs) {
+                return;
+            }
+            self.fn_stack.push(f.sig.ident.to_string());
+            syn::visit::visit_item_fn(self, f);
+            self.fn_stack.pop();
+        }
+        fn visit_impl_item_fn(&mut self, f: &'ast syn::ImplItemFn) {
+            if is_cfg_test(&f.attrs) {
+                return;
+            }
+            self.fn_stack.push(f.sig.ident.to_string());
+            syn::visit::visit_impl_item_fn(self, f);
+            self.fn_stack.pop();
+        }
+        fn visit_trait_item_fn(&mut self, f: &'ast syn::TraitItemFn) {
+            self.fn_stack.push(f.sig.ident.to_string());
+            syn::visit::visit_trait_item_fn(self, f);
+            self.fn_stack.pop();
+        }
+        fn visit_expr_binary(&mut self, b: &'ast syn::ExprBinary) {
+            if matches!(b.op, syn::BinOp::Eq(_) | syn::BinOp::Ne(_)) {
+                if !is_rw(&b.left) {
+                    self.visit_expr(&b.left);
+                }
+                if !is_rw(&b.right) {
+                    self.visit_expr(&b.right);
+                }
+                return;
+            }
+            syn::visit::visit_expr_binary(self, b);
+        }
+        fn visit_pat(&mut self, p: &'ast syn::Pat) {
+            // `Pat::Path` is an `ExprPath`: a pattern matches on the scope, it does not produce it
+            if !matches!(p, syn::Pat::Path(_)) {
+                syn::visit::visit_pat(self, p);
+            }
+        }
+        fn visit_expr_path(&mut self, p: &'ast syn::ExprPath) {
+            if is_rw(&syn::Expr::Path(p.clone())) {
+                self.hit();
+            }
+        }
+        fn visit_expr_method_call(&mut self, m: &'ast syn::ExprMethodCall) {
+            if m.method == "project_with_scope" {
+                self.hit();
+            }
+            syn::visit::visit_expr_method_call(self, m);
+        }
+    }
+    let root = std::path::Path::new(repo).join("server/lib/src");
+    let mut files = vec![];
+    rs_files(&root.join("idm"), &mut files)?;
+    files.push(root.join("server/identity.rs"));
+    let mut out: Vec<(String, String, usize)> = vec![];
+    for p in files {
+        let src = std::fs::read_to_string(&p).map_err(|e| format!("{}: {e}", p.display()))?;
+        let ast = syn::parse_file(&src).map_err(|e| format!("{}: parse error: {e}", p.display()))?;
+        let mut v = V { fn_stack: vec![], hits: vec![] };
+        v.visit_file(&ast);
+        let rel = p.strip_prefix(&root).unwrap_or(&p).display().to_string();
+        let mut per: BTreeMap<String, usize> = BTreeMap::new();
+        for h in v.hits {
+            *per.entry(h).or_insert(0) += 1;
+        }
+        for (f, n) in per {
+            out.push((rel.clone(), f, n));
+        }
+    }
+    Ok(out)
 }
